@@ -2,7 +2,9 @@
 (* Trace validation of the write path of the transport channel on a faithful network (C03,   *)
 (* second sentence): Write(n) sends Ceil(n / Max) packets (one empty packet for n = 0), which  *)
 (* together carry exactly the n bytes, reports n, and the peer reads exactly those bytes;    *)
-(* concurrent writers never reuse a counter and every message arrives exactly once.          *)
+(* concurrent writers never reuse a counter and every message arrives exactly once; in a long *)
+(* session no replayed datagram is delivered again or redirects the session (the replay      *)
+(* filter of ReplayWindow.tla at its call site).                                             *)
 EXTENDS Integers, Sequences, TLC, Json
 CONSTANT Max        \* MaxPlaintextSize
 Trace == ndJsonDeserialize("trace.ndjson")
@@ -13,6 +15,7 @@ Good(e) ==
     CASE e.ev = "write" -> /\ e.ret = e.n /\ e.pkts = Chunks(e.n) /\ e.sentbytes = e.n
                            /\ e.read = e.n /\ e.intact = "yes"
       [] e.ev = "conc"  -> /\ e.distinctctrs = e.msgs /\ e.delivered = e.msgs /\ e.dups = 0 /\ e.corrupt = 0
+      [] e.ev = "longrun" -> e.delivered = e.sent /\ e.redelivered = 0 /\ e.moved = 0
       [] OTHER -> FALSE
 TInit == l = 1 /\ bad = 0
 TNext == /\ l <= Len(Trace) /\ l' = l + 1
